@@ -691,6 +691,18 @@ func (s *Sim) WriteAsyncAck(p *Pkt, success bool) *kit.Outcome {
 		if o.OK() && p.AckV2 == nil {
 			p.AckV2 = &ack
 		}
+		if o.OK() {
+			// C11: an asynchronously acknowledged v2 packet is removed once its acknowledgement is written
+			s.C.Inc("async_acks_written_v2")
+			if len(d.StoreGet("ibc", channeltypesv2.AsyncPacketKey(p.V2.DestinationClient, p.Seq))) != 0 {
+				s.viol("C11", "async-packet-survives-its-acknowledgement", "v2 packet %s is still stored as asynchronous after its acknowledgement was written", p)
+			}
+		} else if p.RecvResult == "async" && p.AckV2 == nil && p.received() {
+			// refused although the packet is received, asynchronous and unacknowledged: it must stay retrievable
+			if len(d.StoreGet("ibc", channeltypesv2.AsyncPacketKey(p.V2.DestinationClient, p.Seq))) == 0 {
+				s.viol("C11", "pending-async-packet-lost", "v2 packet %s awaits its asynchronous acknowledgement but is no longer retrievable (%s)", p, shortLog(o))
+			}
+		}
 	} else {
 		var ack channeltypes.Acknowledgement = ibcmock.MockAcknowledgement
 		if !success {
